@@ -120,6 +120,9 @@ def mutants(only, tier):
     results = []
     cli = os.path.join(VERIF, "simdst", "cli.py")
     for name, patch, meta in cat:
+        if meta.get("obsolete"):
+            print(f"mutant {name}: marked obsolete ({meta.get('obsolete_reason', '')[:120]}...), skipped")
+            continue
         props = meta.get("properties") or ([meta["property"]] if "property" in meta else [])
         if not props:
             print(f"mutant {name}: no property in meta, skipped")
